@@ -59,7 +59,7 @@ for pid, tech, text in [
 for pid, tech, text in [
  ("C01", "Coq (the reference trace is a closed function of the script) + trace equality of the library with that one function in five environments (MALLOC_PERTURB_ x2, ASLR off, same-process, per-process)",
   "Theorems in coq/Properties/Properties_C01.v: every simulation starts from the same state; trace and capture bytes are closed functions of the script; capture round-trip. The environment-independence of the C++ is established per generated program by equality with that function under heap perturbation, without ASLR, and after other simulations in the same process."),
- ("C04", "Coq proof (every completion is a post; posted handlers run exactly once later (kernel FIFO invariant, all programs); timer waits at most once; cancel/close post exactly the pending handlers with operation_aborted and empty the slots) + ASan/UBSan runs with cancel/close/destroy/supersede at chosen instants, inline-invocation detector in the harness, handler-count oracle",
+ ("C04", "Coq proof (every completion is a post; posted handlers run exactly once later (kernel FIFO invariant, all programs); timer waits at most once; cancel/close post exactly the pending handlers with operation_aborted and empty the slots; conservation at the socket layer: every initiating TCP read / wait / write and UDP receive / wait either parks its handler calling nothing or posts it, and a new operation of the same kind first aborts the outstanding one exactly once) + ASan/UBSan runs with cancel/close/destroy/supersede at chosen instants, inline-invocation detector in the harness, handler-count oracle",
   "Theorems in coq/Properties/Properties_C04.v."),
  ("C12", "Coq proof (detached forwarders swallow packets, close detaches, drop notifications without a channel are ignored, close leaves no handler/queue) + whole-scenario runs under ASan/UBSan/_GLIBCXX_ASSERTIONS with interventions at chosen instants, model tag-9 lines mark every null/moved-from dereference the C++ would perform",
   "Theorems in coq/Properties/Properties_C12.v; memory safety of the C++ itself is exhibited by the sanitizer side (enumeration), as DESIGN.md section 7 says."),
